@@ -128,6 +128,9 @@ impl<T: Send> Receiver<T> {
   }
 
   pub fn recv_timeout(&self, timeout: Duration) -> Result<T, RecvErrorTimeout> {
+    if self.closed.load(Ordering::Relaxed) {
+      return Err(RecvErrorTimeout::Disconnected);
+    }
     let deadline = Instant::now().checked_add(timeout);
     let mut is_registered = false;
     let notified = AtomicBool::new(false);
